@@ -6,6 +6,7 @@ import (
 	"path/filepath"
 	"strings"
 	"testing"
+	. "verifharness/hist"
 
 	"github.com/google/reftable"
 	"pgregory.net/rapid"
